@@ -112,12 +112,17 @@ class Run(object):
 
         def queue_command(cmd, arg=None):
             serial = len(run.cmds) + 1
-            text = cmd if isinstance(cmd, bytes) else cmd.encode("ascii")
+            text = cmd if isinstance(cmd, bytes) else cmd.encode("utf-8")
             run.cmds.append(dict(text=text, written=False, kind=run.next_kind))
             run.next_kind = None
             run.res.append(dict(k="p", cls="", toks=[]))
             kind = run.cmds[-1]["kind"]
-            d = orig_q(cmd, arg)
+            try:
+                d = orig_q(cmd, arg)
+            except Exception:
+                run.cmds.pop()          # refused at submission: never a command
+                run.res.pop()
+                raise
             if run.late_attach and kind in (None, "plain") and arg is None:
                 # the caller submits first and looks at the outcome later (attaches its callbacks after the reply is in)
                 run.unattached.append((d, serial))
@@ -275,7 +280,18 @@ class Run(object):
         a = e["a"]
         p = self.proto
         try:
-            if a == "Submit":
+            if a == "Submit" and e["k"] == "na":
+                # a command with a character outside ASCII: the protocol may refuse it on the spot (then it was never
+                # submitted) or accept it (then it is a command like any other); which of the two is recorded
+                serial = len(self.cmds) + 1
+                try:
+                    self.next_kind = "plain"
+                    p.queue_command(u"GETINFO k%d-\u00e9" % serial)
+                    e["acc"] = True
+                except UnicodeError:
+                    self.next_kind = None
+                    e["acc"] = False
+            elif a == "Submit":
                 serial = len(self.cmds) + 1
                 text = "GETINFO k%d" % serial
                 if e["k"] == "cb":
@@ -331,7 +347,9 @@ class Run(object):
         except Exception:
             self.exc = True
             self.errors.append(failure.Failure().getTraceback())
-        return self.snapshot()
+        # (a caller that looks at the outcome late does so at the latest once the connection is gone, or - when it
+        # submits after the loss - right away)
+        return self.snapshot(attach=(a == "Lose" or self.lost))
 
     def _line(self, lookahead):
         """deliver (the rest of) the next pending line according to the
